@@ -41,6 +41,18 @@ CHECKS = {
             "2-4 writers with heavily overlapping trees run build()+transfer() into one LocalHashFileDB with one shared hash-state database, as real threads (one State object) or as forked processes (optionally after setuid to an unprivileged uid, so the kernel - not a model - decides permission outcomes). A seeded controller holds a single baton: a writer runs only between two seam points (every filesystem mutation, stat/open/scandir read, state-database call, and every SQL statement issued outside a transaction) and the controller picks who proceeds next under a uniform / sticky / priority-with-change-points policy, so one seed is one exactly repeatable interleaving. Oracle: no writer raised, no TransferResult.failed, final store == union of the writers' independently computed object sets byte for byte, each writer's directory id is its model's, no hash-state row vouches for wrong content.",
             "Pre-emption only at seam points, not arbitrary bytecodes; pool tasks inside one writer are reordered, not interleaved. Runs as root except in the uid variant.",
             "deterministic simulation: seeded baton scheduler over real threads / forked processes at seam points", "DESIGN.md §5 C16"),
+    "C01": ("exploration",
+            "Seeded histories of 3-12 real operations (stage directory/file, upload-stage, store-to-store transfer closed/expanded/hardlink/verify, index save of nested directories, migrate of a legacy md5-dos2unix store, gc, user edits) over four stores of both classes plus a simulated remote, with listing order, pool completion order, set order (PYTHONHASHSEED), reflink variant and the parallel-hashing threshold seeded, 60% of histories with injected upload faults (create / mid-copy / rename / lost put / lost ack). After EVERY operation every store is audited from raw kernel listings: each object's name equals the digest of its bytes under that store's algorithm (directory objects: canonical listing + .dir) and local-class objects added by a successful operation are mode 0444.",
+            "Under an injected fault in the same operation an empty unprotected file at a final name (reflink window) is tolerated, nothing else. Hard-linked migration changing the source object's mode is not asserted on.",
+            "deterministic simulation: seeded operation/fault histories with store audit against a reference model after every step", "DESIGN.md §5 C01"),
+    "C02": ("exploration",
+            "Fault-free histories as for C01 plus checkouts: every staged tree or file is checked out into a fresh location through hashfile.checkout (copy / hardlink / symlink, reflink under the working-reflink variant; with and without hash-state) and through index build->md5->save->compare->apply; the walk of the fresh location must equal the model tree byte for byte, Tree.load must list exactly the model's (path, digest) pairs, reported nfiles/size must match, nested directory entries saved by the index must carry the id of their sub-tree.",
+            "Refinement against a reference model inside the simulated environment (listing order, simulated mtimes feeding the state cache, pool order); no fault dimension.",
+            "deterministic simulation: seeded histories, round-trip vs reference model", "DESIGN.md §5 C02"),
+    "C06": ("exploration",
+            "gc is called on store states produced by real seeded histories (files, directory objects, shared files, leftovers of failed adds, evicted objects) with used sets drawn from ids in the store, absent ids, ids carrying another algorithm's name, directory ids; shallow and expanding (optionally through a separate cache_odb), dry and real, read-only stores. Oracle: returned count == |S - U|, store afterwards lists exactly S & U (S when dry), read-only store refused and untouched, with S from the store's own listing before the call and U computed independently from the model.",
+            "No schedule or fault dimension exists in gc itself; the simulation contributes history-produced store states and the model comparison.",
+            "deterministic simulation: seeded histories producing store states, gc vs set-difference model", "DESIGN.md §5 C06"),
 }
 
 NA_FIXED = {
